@@ -199,6 +199,12 @@ def r08g(ck, fb):
                     if p2 is not None and not pl_proj(p2):
                         walk(pl_local(p2), depth + 1)
         walk(pl_local(pl))
+        # Option::map_or(default, f) / unwrap_or(default): the default is the value for None
+        d0 = cfg.describe_operand(b, op)
+        if d0['k'] == 'call' and re.search(r'Option::<T>::(map_or|unwrap_or)$', cfg.callee_name(d0['term']) or ''):
+            da = cfg.describe_operand(b, d0['term']['args'][1])
+            if da['k'] == 'const':
+                consts.append((d0['bb'], da['c'].get('v')))
         for (bb, v) in consts:
             n += 1
             none_edge = any(a[0] in ('variant',) and a[2] == 'None' for a in cfg.guard_atoms(b, bb)) or \
